@@ -231,7 +231,7 @@ func evalShared(c SharedCase) lib.Outcome {
 		}
 		fds[f].Write(data)
 		// one file after the other, each waits for its delivery: the queue is empty whenever a sentinel is read
-		end := time.Now().Add(3 * time.Second)
+		end := time.Now().Add(10 * time.Second)
 		for time.Now().Before(end) && sentinels[f] != 0 {
 			mu.Lock()
 			l := perFile[f]
@@ -293,7 +293,7 @@ func evalShared(c SharedCase) lib.Outcome {
 		if sentinels[f] != 0 {
 			l := perFile[f]
 			if len(l) == 0 || l[len(l)-1].n != sentinels[f] {
-				o.Fail = fmt.Sprintf("file %d: a line appended while the consumer was idle and the shared queue empty was not delivered within 3 s", f)
+				o.Fail = fmt.Sprintf("file %d: a line appended while the consumer was idle and the shared queue empty was not delivered within 10 s", f)
 				return o
 			}
 		}
